@@ -318,9 +318,10 @@ prop(
     design_ref="DESIGN.md section 3, C19",
     groups=[(["./pipeline"], r"^(\(\*Batch\)\.ForEach|\(\*Event\)\.reset)$"),
             (["./plugin/output/elasticsearch"], r"^\(\*Plugin\)\.(sendSplit|appendIndexName|appendEvent|out|out\$1|Start|Start\$1)$"),
-            (["./plugin/output/http", "./pipeline"], r"^\(\*Plugin\)\.(sendSplit|out|out\$1)$"),
+            (["./plugin/output/http", "./pipeline"], r"^(\(\*Plugin\)\.(sendSplit|out|out\$1)|\(\*(Raw|JSON)Encoder\)\.Encode)$"),
             (["./plugin/output/kafka", "./pipeline"], r"^\(\*Plugin\)\.(out|out\$1)$"),
             (["./plugin/output/gelf"], r"^\(\*Plugin\)\.formatExtraField$")],
+    canaries=[("./plugin/output/http", "replay/C19/zz_raw_encoder_test.go", "TestVerifRawEncoderKeepsEarlierEvents")],
     known_canaries=[("./plugin/output/elasticsearch", "replay/C19/zz_replay_c19_test.go", "TestVerifReplayC19IndexName")],
     claim=(
         "Proved: Batch.ForEach calls the callback for exactly the non-parent events, in index order (per-iteration obligation); Elasticsearch sendSplit and the http output's sendSplit (split_batch), for every pattern of failing / 413 / successful requests (DoTimeout is an arbitrary environment), "
